@@ -16,8 +16,8 @@ CONSTANTS MaxLen,      \* bound on the input length
           Ops,         \* operations exercised: prepare, enforce, and/or rule names
           FirstSyms,   \* sharding: allowed first characters ({} = all)
           FrameOn,     \* FALSE: every string up to MaxLen is built character by character;
-                       \* TRUE: the inputs are the FRAMED strings  f^i x f^j y f^k  for every pair x, y of the
-                       \* alphabet, every filler f in Fillers and all counts i <= FI, j <= FJ, k <= FK (two special
+                       \* TRUE: the inputs are the FRAMED strings  f^i x g^j y g^k  for every pair x, y of the
+                       \* alphabet, all fillers f, g in Fillers and all counts i <= FI, j <= FJ, k <= FK (two special
                        \* characters at every distance and byte alignment in longer strings)
           FI, FJ, FK, Fillers
 
@@ -31,8 +31,8 @@ View == <<input, phase, p, op, k, cur, n, roundIn>>
 Idle == /\ p = "" /\ op = "" /\ pipe = <<>> /\ k = 0 /\ cur = Ok(<<>>) /\ n = 0 /\ roundIn = <<>> /\ steps = <<>>
 
 Rep(c, m) == [i \in 1..m |-> c]
-Framed == {Rep(f, i) \o <<x>> \o Rep(f, j) \o <<y>> \o Rep(f, kk) :
-             f \in Fillers, x \in SigmaIn, y \in SigmaIn, i \in 0..FI, j \in 0..FJ, kk \in 0..FK}
+Framed == {Rep(f, i) \o <<x>> \o Rep(g, j) \o <<y>> \o Rep(g, kk) :
+             f \in Fillers, g \in Fillers, x \in SigmaIn, y \in SigmaIn, i \in 0..FI, j \in 0..FJ, kk \in 0..FK}
 
 Init == /\ IF FrameOn THEN input \in Framed ELSE input = <<>>
         /\ phase = "build" /\ Idle
